@@ -13,46 +13,46 @@ From Coq Require Import QArith Qabs Sorting.Sorted.
 
 (* the model's fuel always suffices *)
 Theorem add_measures_total : forall div tsigs first last ex,
-  pre tsigs first last ex div -> exists ms, add_measures div tsigs first last ex = Some ms.
+  pre tsigs first last ex -> exists ms, add_measures div tsigs first last ex = Some ms.
 Proof. exact add_measures_total_lemma. Qed.
 Print Assumptions add_measures_total.
 
 (* the measures afterwards, in the order the loop meets or makes them, run from the first to the
    last point without gap or overlap, each non-empty *)
 Theorem measures_tile : forall div tsigs first last ex ms,
-  pre tsigs first last ex div -> add_measures div tsigs first last ex = Some ms ->
+  pre tsigs first last ex -> add_measures div tsigs first last ex = Some ms ->
   chain_from first (spans ms) last.
 Proof. exact measures_tile_lemma. Qed.
 Print Assumptions measures_tile.
 
 (* ... so every time of [first, last) lies in exactly one measure *)
 Theorem measures_partition : forall div tsigs first last ex ms,
-  pre tsigs first last ex div -> add_measures div tsigs first last ex = Some ms ->
+  pre tsigs first last ex -> add_measures div tsigs first last ex = Some ms ->
   forall x, first <= x < last ->
     exists m, In m (spans ms) /\ fst m <= x < snd m
               /\ forall m', In m' (spans ms) -> fst m' <= x < snd m' -> m' = m.
 Proof. exact measures_partition_lemma. Qed.
 Print Assumptions measures_partition.
 
-(* existing measures are left in place: each is among the measures afterwards with its extent *)
+(* existing measures are left in place: each is among the measures afterwards with its extent
+   (also one that runs across a signature change) *)
 Theorem existing_measures_kept : forall div tsigs first last ex ms,
-  pre tsigs first last ex div -> ex_sorted ex ->
+  pre tsigs first last ex -> ex_sorted ex ->
   add_measures div tsigs first last ex = Some ms ->
-  forall x, In x ex -> first <= fst x < last ->
-  exists m, In m ms /\ m_old m = true /\ span m = x.
+  forall x, In x ex -> exists m, In m ms /\ m_old m = true /\ span m = x.
 Proof. exact existing_kept_lemma. Qed.
 Print Assumptions existing_measures_kept.
 
 (* ... and nothing else is passed off as an existing measure *)
 Theorem old_measures_are_existing : forall div tsigs first last ex ms,
-  pre tsigs first last ex div -> add_measures div tsigs first last ex = Some ms ->
+  pre tsigs first last ex -> add_measures div tsigs first last ex = Some ms ->
   forall m, In m ms -> m_old m = true -> In (span m) ex.
 Proof. exact measures_old_lemma. Qed.
 Print Assumptions old_measures_are_existing.
 
 (* all measures, old and new, are numbered 1, 2, 3, ... in time order *)
 Theorem measures_numbered : forall div tsigs first last ex ms,
-  pre tsigs first last ex div -> add_measures div tsigs first last ex = Some ms ->
+  pre tsigs first last ex -> add_measures div tsigs first last ex = Some ms ->
   map m_num ms = zrange 1 (List.length ms).
 Proof. exact measures_numbered_lemma. Qed.
 Print Assumptions measures_numbered.
@@ -62,7 +62,7 @@ Print Assumptions measures_numbered.
    one division, not beyond the last point or the stretch) -- or earlier, exactly at the start
    of an existing measure *)
 Theorem new_measure_length : forall div tsigs first last ex ms,
-  pre tsigs first last ex div -> add_measures div tsigs first last ex = Some ms ->
+  pre tsigs first last ex -> add_measures div tsigs first last ex = Some ms ->
   forall m, In m ms -> m_old m = false ->
   exists s, In s (stretches div tsigs first last)
             /\ stretch_in_force div (ts_rows tsigs first) s
@@ -74,7 +74,7 @@ Print Assumptions new_measure_length.
 (* for a bar that is a whole number B of divisions: a new measure is B long, or it is shorter
    and ends at the next signature / the last point / the start of an existing measure *)
 Theorem new_measure_length_integral : forall div tsigs first last ex ms,
-  pre tsigs first last ex div -> add_measures div tsigs first last ex = Some ms ->
+  pre tsigs first last ex -> add_measures div tsigs first last ex = Some ms ->
   forall m, In m ms -> m_old m = false ->
   exists s, In s (stretches div tsigs first last)
     /\ stretch_in_force div (ts_rows tsigs first) s
@@ -86,12 +86,13 @@ Theorem new_measure_length_integral : forall div tsigs first last ex ms,
 Proof. exact new_measure_length_integral_lemma. Qed.
 Print Assumptions new_measure_length_integral.
 
-(* the hypotheses are satisfiable: two signatures, two existing measures, cuts of all three kinds *)
+(* the hypotheses are satisfiable: two signatures, two existing measures (one running across the
+   signature change), new measures cut by an existing measure and by the last point *)
 Example measures_example :
-  (pre ex_tsigs 0 40 ex_existing 4 /\ ex_sorted ex_existing) /\
+  (pre ex_tsigs 0 40 ex_existing /\ ex_sorted ex_existing) /\
   add_measures 4 ex_tsigs 0 40 ex_existing
-  = Some [(0, 5, 1, false); (5, 9, 2, true); (9, 21, 3, false); (21, 24, 4, false);
-          (24, 30, 5, false); (30, 33, 6, true); (33, 40, 7, false)].
+  = Some [(0, 5, 1, false); (5, 9, 2, true); (9, 21, 3, false); (21, 22, 4, false);
+          (22, 30, 5, true); (30, 38, 6, false); (38, 40, 7, false)].
 Proof. exact (conj ex_pre ex_result). Qed.
 Print Assumptions measures_example.
 
@@ -165,8 +166,8 @@ Proof. exact assigned_symbolic_exact_lemma. Qed.
 Print Assumptions assigned_symbolic_exact.
 
 Example tie_example :
-  tie_chain [0; 5; 9; 21; 24; 30; 33] 4 (60, 1, 1, [(3, 26)])
-  = (60, 1, 1, [(3, 5); (5, 9); (9, 21); (21, 24); (24, 26)]).
+  tie_chain [0; 5; 9; 21; 22; 30; 38] 4 (60, 1, 1, [(3, 35)])
+  = (60, 1, 1, [(3, 5); (5, 9); (9, 21); (21, 22); (22, 30); (30, 32); (32, 35)]).
 Proof. exact ex_tie. Qed.
 Print Assumptions tie_example.
 
